@@ -1057,7 +1057,8 @@ class String2Key(Field):
         if self.specifier == String2KeyType.Iterated and self.count > len(hsalt + hpass):
             count = self.count
 
-        hcount = (count // len(hsalt + hpass))
+        # an empty passphrase under Simple S2K is a zero-octet stream (hash of the preload only)
+        hcount = (count // len(hsalt + hpass)) if count else 0
         hleft = count - (hcount * len(hsalt + hpass))
 
         hashdata = ((hsalt + hpass) * hcount) + (hsalt + hpass)[:hleft]
